@@ -135,7 +135,11 @@ func c14Gen(tier string, r *rand.Rand) []Case {
 		ns := []int{1, 2, 3, 255, 256, 257, 1000, 65537, 1 << 33}
 		ops := []c14Op{{Op: "read", N: []int{0, 5, 64, 61}[i%4]}}
 		for j := 0; j < 2+r.IntN(3); j++ {
-			ops = append(ops, c14Op{Op: "derived", N: ns[r.IntN(len(ns))], K: r.IntN(40)}, c14Op{Op: "read", N: sizes[r.IntN(len(sizes))]}, c14Op{Op: "store"})
+			k := r.IntN(40)
+			if r.IntN(3) == 0 {
+				k = []int{256, 257, 258, 301, 513, 700}[r.IntN(6)] // the population counter crosses one byte inside the call
+			}
+			ops = append(ops, c14Op{Op: "derived", N: ns[r.IntN(len(ns))], K: k}, c14Op{Op: "read", N: sizes[r.IntN(len(sizes))]}, c14Op{Op: "store"})
 			if r.IntN(3) == 0 {
 				ops = append(ops, c14Op{Op: "restore"})
 			}
@@ -349,10 +353,18 @@ func c14Run(c Case) (Result, error) {
 			}
 			draw := func(g random.Rand) string {
 				var sw [][2]int
-				v := g.UintN(uint64(op.N))
+				// odd K: the samplers come first, so that whatever scratch memory the ORIGINAL generator carries
+				// from before the checkpoint (the restored one starts clean) is still there when they run
+				var v uint64
+				if op.K%2 == 0 {
+					v = g.UintN(uint64(op.N))
+				}
 				pm, e1 := g.Permutation(op.K)
 				sp, e2 := g.SubPermutation(op.K+3, op.K/2)
 				e3 := g.Shuffle(op.K/3, func(i, j int) { sw = append(sw, [2]int{i, j}) })
+				if op.K%2 == 1 {
+					v = g.UintN(uint64(op.N))
+				}
 				return fmt.Sprint(v, pm, e1, sp, e2, sw, e3, hx(g.Store()))
 			}
 			a, b := draw(cur), draw(p2)
